@@ -4,6 +4,7 @@ package main
 
 import (
 	"fmt"
+	"reflect"
 	"strings"
 
 	"github.com/cockroachdb/redact"
@@ -403,8 +404,19 @@ func same(a interface{}, err error) (r bool) {
 			r = false
 		}
 	}()
-	if ae, ok := a.(error); ok && ae == err {
-		return true
+	if ae, ok := a.(error); ok {
+		// errors of uncomparable dynamic types (maps, slices, funcs) cannot
+		// be compared with ==: compare the reference instead
+		va, ve := reflect.ValueOf(ae), reflect.ValueOf(err)
+		if va.IsValid() && ve.IsValid() && va.Type() == ve.Type() {
+			switch va.Kind() {
+			case reflect.Map, reflect.Slice, reflect.Func:
+				return va.Pointer() == ve.Pointer()
+			}
+		}
+		if ae == err {
+			return true
+		}
 	}
 	// look through Safe()/Unsafe() wrappers
 	if w, ok := a.(interface{ GetValue() interface{} }); ok {
